@@ -799,6 +799,8 @@ class Fn:
         if v.ty.kind == "bool":
             return v
         if v.ty.kind == "int":
+            if getattr(v, "boolsrc", None):
+                return V(v.boolsrc, Ty("bool"), v.guards)
             m = re.match(r"^\(C\.b2i \d+ (\(.*\))\)$", v.text)
             if m:
                 return V(m.group(1), Ty("bool"), v.guards)
@@ -814,12 +816,16 @@ class Fn:
         if v.ty.kind == "bool":
             if v.const is not None:
                 return V(lit(v.const, ty.bits), ty, v.guards, const=v.const)
-            return V("(C.b2i %d %s)" % (ty.bits, v.text), ty, v.guards)
+            r = V("(C.b2i %d %s)" % (ty.bits, v.text), ty, v.guards)
+            r.boolsrc = v.text
+            return r
         return v
 
     def cast_int(self, v, to):
         if v.ty.kind == "bool":
             return self.as_int(v, to)
+        if getattr(v, "boolsrc", None) and v.ty.kind == "int":
+            return self.as_int(V(v.boolsrc, Ty("bool"), v.guards), to)
         if v.ty.kind != "int":
             bad("integral cast from %r" % (v.ty,))
         if v.const is not None:
@@ -890,6 +896,12 @@ class Fn:
                 if info["mode"] in ("value", "inout"):
                     # a pointer parameter in value mode used as a value: only as call argument / -> base
                     return V(self.ln(name), Ty("ptr", elem=info["ty"].elem, name="valueptr:" + info.get("alias", name)))
+                if info["mode"] == "copy":
+                    src = self.vars[info["of"]]
+                    pv = V(self.ln(info["of"]), info["ty"])
+                    if src.get("bound"):
+                        pv.bound = src["bound"]
+                    return pv
                 if info["mode"] == "memobj":
                     pv = V(info["base"], Ty("ptr", elem=info["objty"].elem if info["objty"].kind == "array" else info["objty"]))
                     pv.bound = info["bound"]
@@ -1022,6 +1034,10 @@ class Fn:
                 b = self.as_int(b, a.ty)
             if a.ty.bits != b.ty.bits or a.ty.signed != b.ty.signed:
                 bad("comparison of different types %r %r" % (a.ty, b.ty), n)
+            for x_, y_ in ((a, b), (b, a)):
+                if getattr(x_, "boolsrc", None) and y_.const in (0, 1) and op in ("==", "!="):
+                    pos = (y_.const == 1) == (op == "==")
+                    return V(x_.boolsrc if pos else "(!%s)" % x_.boolsrc, Ty("bool"), gs)
             if a.const is not None and b.const is not None:
                 x, y = sval(a.const, a.ty), sval(b.const, b.ty)
                 r = {"==": x == y, "!=": x != y, "<": x < y, "<=": x <= y, ">": x > y, ">=": x >= y}[op]
@@ -1066,6 +1082,19 @@ class Fn:
         b = self.as_int(b, ty)
         if a.ty.bits != ty.bits or b.ty.bits != ty.bits:
             bad("operand width differs from result width", n)
+        if a.const is not None and b.const is not None and not gs:
+            x, y = sval(a.const, ty), sval(b.const, ty)
+            r = None
+            if op in ("+", "-", "*"):
+                r = {"+": x + y, "-": x - y, "*": x * y}[op]
+                if ty.signed and not (-(1 << (ty.bits - 1)) <= r < (1 << (ty.bits - 1))):
+                    r = None
+            elif op in ("/", "%") and y != 0 and x >= 0 and y > 0:
+                r = x // y if op == "/" else x % y
+            elif op in ("&", "|", "^"):
+                r = {"&": a.const & b.const, "|": a.const | b.const, "^": a.const ^ b.const}[op]
+            if r is not None:
+                return litv(r, ty)
         if op in ("+", "-", "*"):
             if ty.signed:
                 ov = {"+": "BitVec.saddOverflow", "-": "BitVec.ssubOverflow", "*": "BitVec.smulOverflow"}[op]
@@ -1225,10 +1254,20 @@ class Fn:
             base, idx = n["inner"]
             while base.get("kind") in ("ImplicitCastExpr", "ParenExpr"):
                 base = base["inner"][0]
-            p = self.lvalue_path(base, env)
+            if base.get("kind") == "DeclRefExpr" and self.vars.get(base["referencedDecl"]["name"], {}).get("mode") == "arrayalias":
+                p = dict(self.vars[base["referencedDecl"]["name"]]["path"])
+            else:
+                p = self.lvalue_path(base, env)
             if p["ty"].kind != "array":
                 bad("subscript of non-array", n)
             i = const_value(idx)
+            if i is None:
+                try:
+                    iv = self.expr(idx, env)
+                    if iv.const is not None and not iv.guards:
+                        i = sval(iv.const, iv.ty)
+                except Untranslatable:
+                    pass
             if i is None:
                 bad("array subscript is not a constant", n)
             if not (0 <= i < p["ty"].n):
@@ -1302,18 +1341,35 @@ class Fn:
         if name == "memcmp":
             a, b = self.bytes_arg(n["inner"][1], env), self.bytes_arg(n["inner"][2], env)
             self.check_whole_size(n["inner"][3], a, b, n)
+            if getattr(a, "elems", None) or getattr(b, "elems", None):
+                if not (getattr(a, "elems", None) and getattr(b, "elems", None)) or len(a.elems) != len(b.elems):
+                    bad("memcmp of arrays of different shape", n)
+                src = "(" + " || ".join("(%s != %s)" % (x, y) for x, y in zip(a.elems, b.elems)) + ")"
+                r = V("(C.b2i 32 %s)" % src, Ty("int", 32, True), [])
+                r.boolsrc = src
+                return r
             # only the truth value of the result is defined here: 0 iff the byte strings are equal
-            return V("(C.b2i 32 (%s != %s))" % (a.text, b.text), Ty("int", 32, True), a.guards + b.guards)
+            r = V("(C.b2i 32 (%s != %s))" % (a.text, b.text), Ty("int", 32, True), a.guards + b.guards)
+            r.boolsrc = "(%s != %s)" % (a.text, b.text)
+            return r
         bad("call of '%s' in a position from which it cannot be hoisted" % name, n)
 
     def bytes_arg(self, a, env):
         while a.get("kind") in ("ImplicitCastExpr", "ParenExpr", "CStyleCastExpr"):
             a = a["inner"][-1]
         p = self.lvalue_path(a, env)
+        if p["ty"].kind == "array":
+            # a small array member is expanded into one field per element
+            v = V(None, p["ty"])
+            v.path = p
+            v.elems = [".".join([self.ln(p["root"])] + p["steps"][:-1] + ["%s_%d" % (p["steps"][-1], i)]) for i in range(p["ty"].n)]
+            v.nbytes = p["ty"].n * (p["ty"].elem.bits // 8 if p["ty"].elem.kind == "int" else 1)
+            return v
         if p["ty"].kind != "bytes":
             bad("memcmp/memcpy argument is not a whole byte-array member", a)
         v = V(self.path_text(p), p["ty"])
         v.path = p
+        v.nbytes = p["ty"].n
         return v
 
     def check_whole_size(self, sz, a, b, n):
@@ -1327,8 +1383,13 @@ class Fn:
                 val = ty.n
         else:
             val = const_value(sz)
-        if val is None or val != a.ty.n or val != b.ty.n:
-            bad("memcmp/memcpy over something else than the whole of two equally long byte arrays", n)
+        if sz.get("kind") == "UnaryExprOrTypeTraitExpr" and sz.get("name") == "sizeof" and val is None:
+            t = sz["argType"]["qualType"] if "argType" in sz else sz["inner"][0]["type"].get("desugaredQualType", sz["inner"][0]["type"]["qualType"])
+            ty2 = parse_type_str(strip_quals(t))
+            if ty2 is not None and ty2.kind == "array" and ty2.elem.kind == "int":
+                val = ty2.n * (ty2.elem.bits // 8)
+        if val is None or val != getattr(a, "nbytes", a.ty.n) or val != getattr(b, "nbytes", b.ty.n):
+            bad("memcmp/memcpy over something else than the whole of two equally long arrays", n)
 
     def find_calls(self, n, strict=True, out=None):
         """translated-function calls in evaluation order; rejects those under short-circuit operators"""
@@ -1762,6 +1823,19 @@ class Fn:
                     else:
                         raise
                 name = d["name"]
+                if name in getattr(self.root, "copies", {}) and not self.prefix:
+                    src = self.root.copies[name]
+                    try:
+                        cty = parse_type(d["type"])
+                    except Untranslatable:
+                        cty = None
+                    sinfo = self.vars[src]
+                    if cty is not None and ((cty.kind == "ptr" and sinfo["mode"] == "mem") or
+                                            (cty.kind == "int" and sinfo["ty"].kind == "int" and cty.bits == sinfo["ty"].bits)):
+                        self.vars[name] = {"ty": cty if cty.kind == "ptr" else sinfo["ty"], "mode": "copy", "of": src}
+                        env2 = copy_env(env)
+                        env2["defined"].add(name)
+                        return go(j + 1, env2)
                 if ty.kind == "array" and ty.elem.kind == "int" and ty.elem.bits == 8 and ty.n > 0 and self.root.opts.get("localbuf") == name:
                     # the receive buffer: the one memory object of this function (contents unspecified until a callee fills it;
                     # modelled as zeros - the translated functions read it only after the receive call)
@@ -1810,6 +1884,20 @@ class Fn:
                     return go(j + 1, env)
                 if ty.kind == "struct":
                     struct_info(self.tu, ty.name)
+                elif ty.kind == "ptr" and not self.uses_mem and ty.elem.kind in ("int", "bool"):
+                    init0 = [c for c in d.get("inner", []) if "kind" in c and not c["kind"].endswith("Attr")]
+                    a0 = init0[0] if init0 else None
+                    while a0 is not None and a0.get("kind") in ("ImplicitCastExpr", "ParenExpr", "CStyleCastExpr"):
+                        a0 = a0["inner"][-1]
+                    if a0 is not None and a0.get("kind") in ("MemberExpr", "DeclRefExpr"):
+                        pth = self.lvalue_path(a0, env)
+                        if pth["ty"].kind == "array":
+                            # `const T *p = rec.member_array;`: p[i] is rec.member_array[i]
+                            self.vars[name] = {"ty": ty, "mode": "arrayalias", "path": pth}
+                            env2 = copy_env(env)
+                            env2["defined"].add(name)
+                            return go(j + 1, env2)
+                    bad("pointer local outside memory mode", d)
                 elif ty.kind == "ptr":
                     init0 = [c for c in d.get("inner", []) if "kind" in c and not c["kind"].endswith("Attr")]
                     if init0 and ty.elem.kind == "struct":
@@ -2002,6 +2090,44 @@ class Fn:
             raise _NoUnroll()
         return r
 
+    def find_copies(self, body):
+        """locals `T x = (casts) p;` where p is a parameter that is never written and x is never written again and its address is
+        never taken: x is p (copy propagation - such a local is not a variable of its own in the translation)"""
+        params = set(pn for pn, _, _ in self.params)
+        written, inits = set(), {}
+
+        def strip(n):
+            while n.get("kind") in ("ImplicitCastExpr", "ParenExpr", "CStyleCastExpr"):
+                n = n["inner"][-1]
+            return n
+
+        def walk(n):
+            k = n.get("kind")
+            if k in ("BinaryOperator", "CompoundAssignOperator") and (n.get("opcode") == "=" or k == "CompoundAssignOperator"):
+                t = strip(n["inner"][0])
+                if t.get("kind") == "DeclRefExpr":
+                    written.add(t["referencedDecl"]["name"])
+            if k == "UnaryOperator" and n.get("opcode") in ("++", "--", "&"):
+                t = strip(n["inner"][0])
+                if t.get("kind") == "DeclRefExpr":
+                    written.add(t["referencedDecl"]["name"])
+            if k == "VarDecl":
+                init = [c for c in n.get("inner", []) if "kind" in c and not c["kind"].endswith("Attr")]
+                if init:
+                    t = strip(init[0])
+                    if t.get("kind") == "DeclRefExpr" and t.get("referencedDecl", {}).get("kind") == "ParmVarDecl":
+                        inits[n["name"]] = t["referencedDecl"]["name"]
+                    else:
+                        inits[n["name"]] = None
+                else:
+                    written.add(n["name"])          # assigned later
+            for c in n.get("inner", []):
+                if isinstance(c, dict):
+                    walk(c)
+        walk(body)
+        return {x: p_ for x, p_ in inits.items() if p_ is not None and p_ in params and x not in written and p_ not in written
+                and self.vars.get(p_, {}).get("mode") in ("mem", "scalar")}
+
     def var_lean_type(self, name):
         info = self.vars[name]
         if info["mode"] in ("value", "inout"):
@@ -2023,7 +2149,7 @@ class Fn:
             bad("loop inside an inlined helper", s)
         self.root.nloops += 1
         lname_ = "%s.loop%d" % (self.name, self.root.nloops)
-        live = sorted(v for v in env["defined"] if v in self.vars and "alias" not in self.vars[v])
+        live = sorted(v for v in env["defined"] if v in self.vars and "alias" not in self.vars[v] and self.vars[v]["mode"] != "copy")
         params = ["(fuel : Nat)"]
         args = []
         if self.uses_world:
@@ -2162,6 +2288,8 @@ class Fn:
                 cty = parse_type(s["computeResultType"])
                 lty = parse_type(s["computeLHSType"])
                 cur = V(self.path_text(p), p["ty"])
+                if not p["steps"] and p["ty"].kind == "int" and self.vars[p["root"]]["mode"] == "local" and p["root"] in env2.get("consts", {}):
+                    cur = litv(env2["consts"][p["root"]], p["ty"])
                 if self.vars[p["root"]]["mode"] == "local" and self.path_key(p) not in env2["defined"] and p["root"] not in env2["defined"]:
                     cur = V("__UNINIT__", p["ty"], ["false"])
                 fake = {"kind": "BinaryOperator", "opcode": op, "type": s["computeResultType"], "inner": [None, None]}
@@ -2273,7 +2401,12 @@ class Fn:
         info = self.vars[root]
         rty = info["ty"].elem.lean() if info["mode"] in ("value", "inout") else info["ty"].lean()
         env = copy_env(env)
-        env.get("consts", {}).pop(root, None)
+        known = env.get("consts", {}).pop(root, None)
+        if known is not None and not p["steps"] and info["mode"] == "local" and not gs:
+            newc = (known + (1 if op == "+" else -1)) & ((1 << ty.bits) - 1)
+            if not (ty.signed and ((op == "+" and known == (1 << (ty.bits - 1)) - 1) or (op == "-" and known == (1 << (ty.bits - 1))))):
+                env["consts"][root] = newc
+                return "let %s : %s := %s\n%s" % (self.ln(root), rty, lit(newc, ty.bits), nxt(env))
         return self.guarded(gs, "let %s : %s := %s\n%s" % (self.ln(root), rty, self.update_text(p, "(%s %s %s)" % (cur, op, lit(1, ty.bits))), nxt(env)))
 
     def switch(self, s, env, ctx):
@@ -2336,6 +2469,7 @@ class Fn:
             if self.ret.kind == "void":
                 return self.some_result(self.result_value(None))
             return "none"
+        self.copies = self.find_copies(body)
         self.labels = {}
         top = body.get("inner", [])
         top_ctx = {"next": fall_off}
